@@ -135,7 +135,11 @@ class C22(Prop):
         "formed. The two excluded cells are proved to be the only ones excluded and are refuted with witnesses (a renamed "
         "executable file remote->remote loses its exec bit through tee; a writable local copy of a directory into an existing "
         "directory is merged into it instead of landing at the registered path). Command lines reach the shell verbatim only "
-        "for roots made of shell-safe characters (theorem over Shell.sh_words; refuted witness for a blank). The model is tied "
+        "for roots made of shell-safe characters (theorem over Shell.sh_words; refuted witness for a blank). Registry half "
+        "(C22_registered, over C21's DataReg model, any registry state): after transfer_data's registry operations the "
+        "destination path and its parent are available on the destination location, the destination object has the observed "
+        "data type, the source object and every previously valid copy are unchanged. Path strings are tied to component lists "
+        "over Tags' posixpath fragment (C22_path_strings_partial). The model is tied "
         "to /repo by running the real transfer_data (local connector + shell-backed fake remote under /var/tmp) on random "
         "trees and comparing destination trees, registered paths, their data types and availability with the model's, and by a "
         "byte-for-byte oracle.")
@@ -144,16 +148,20 @@ class C22(Prop):
         "validated only by the runs; paths are component lists (string path arithmetic of posixpath is exercised, not proved); "
         "the registry half ('registered as an available copy') is, in Coq, only the computed path and data type -- the registry "
         "itself is C21's model (DataReg), not re-imported here; what the real data manager lists for the destination after the "
-        "transfer (path, PRIMARY/SYMBOLIC_LINK, available) is compared in the correspondence and demanded by the oracle; wrapped "
-        "remotes (mount points) and multi-destination fan-out are not covered; real ssh/container/k8s connectors are replaced by "
-        "a shell-backed BaseConnector subclass.")
+        "transfer (path, PRIMARY/SYMBOLIC_LINK, available) is compared in the correspondence and demanded by the oracle; "
+        "C22_registered covers destinations that wrap no other location (wrapped destinations and two-destination fan-out are "
+        "run by the correspondence and the oracle only; on a wrapped location the registered path of a same-location directory "
+        "copy depends on a race and only the tree is compared there); normpath/'..'/trailing slashes are outside the path-string "
+        "theorem; real ssh/container/k8s connectors are replaced by a shell-backed BaseConnector subclass whose locations have "
+        "private file systems (mount namespaces).")
     TECHNIQUE = ("Coq proof (nested induction over trees / member lists) + vm_compute correspondence against real transfer_data runs "
                  "+ byte-for-byte oracle")
     RULE = ("transfer: random source (file or tree of 0..30 entries: empty files/dirs, binary contents up to 200 KiB quick / 1 MiB "
             "thorough, names with spaces, quotes, unicode, leading dashes, newlines, >100 chars, inner relative symlinks to files and "
             "link-free directories, hard links) x route {L->L, L->R, R->L, R->R same location, R->R other location, R->R other "
             "deployment} x destination {absent, existing directory (empty or with another entry)} x {same basename, renamed} x "
-            "{writable, read-only}; ~10% roots with shell-special characters. Non-trivial = a directory with >=2 entries, a "
+            "{writable, read-only}; plus a location of another deployment wrapping R1a through a mount point (L->W, R1a->W, R2a->W, "
+            "W->L, W->W) and one call with two destination locations (L|R1a|R2a -> {R1a,R1b}); ~10% roots with shell-special characters. Non-trivial = a directory with >=2 entries, a "
             "hostile name, a link or a non-empty file. Distinct = distinct canonical JSON.")
     TRUSTED = ("model FsTree/Model.v is hand-written: GNU tar/cp/ln/tee/mkdir/test, Python tarfile.add/extract, shutil.copytree/copy "
                "and os.symlink are described from their documentation and only exercised by the runs",
@@ -746,13 +754,13 @@ class C22(Prop):
             pre = {"absent": "None", "dir": "(Some (Dir []))",
                    "dirpre": f"(Some (Dir [({coq_str('zz keep')}, File {coq_str(ctok(b'keep'))} false)]))"}[c["dstate"]]
             regl = od["reg"]
-            if route == "RRsame" and k == "W" and not c["w"] and c["tree"]["t"] == "d" and c["dstate"] == "absent" \
+            if route == "RRsame" and k == "W" and c["tree"]["t"] == "d" and c["dstate"] == "absent" \
                     and regl == ["dst:PRIMARY", "dst/s:PRIMARY"]:
-                # race in transfer_data (known finding registered-missing): on a wrapped location `ln -snf` (the location's
-                # shell) and the `test -d dst` of is_dir (the inner location's shell) run concurrently; when ln wins, dst is
-                # already a link to a directory and dst/s gets registered.  Both outcomes are the code's; only the tree is
-                # compared in this cell.
-                regl = ["dst:SYMBOLIC_LINK"]
+                # race in transfer_data (known finding registered-missing): on a wrapped location `ln -snf` / `cp -rf` (the
+                # location's shell) and the `test -d dst` of is_dir (the inner location's shell) run concurrently; when the copy
+                # wins, dst already is (a link to) a directory and dst/s gets registered.  Both outcomes are the code's; only
+                # the tree is compared in this cell.
+                regl = ["dst:PRIMARY"] if c["w"] else ["dst:SYMBOLIC_LINK"]
             reg = coq_list([coq_str(r) for r in regl])
             terms.append(f"(CXfer {route} {coq_bool(c['w'])} {pre} {coq_str(c['sname'])} {coq_str(c['dname'])} {t} "
                          f"{coq_bool(bool(o['err']))} {odst} {reg})")
